@@ -714,6 +714,60 @@ fn run_bulk(rng: &mut Rng, i: u64, seed: u64) -> SimResult {
     res
 }
 
+/// A very long run of consecutive lines without a command (60 000 - 250 000 blank,
+/// blanks-only, CR-only and undecodable lines), then `isready`: whatever the input loop does
+/// per skipped line must not add up (stack, buffers, counters). Run in the simulation (with
+/// the stack probe in the input path) and, whole, on the real binary with its real 8 MiB stack.
+fn run_blank_run(rng: &mut Rng, i: u64, seed: u64, real_bin: &Option<std::path::PathBuf>) -> SimResult {
+    let mut res = SimResult::default();
+    let n = rng.range(60_000, 250_000) as usize;
+    let kinds: Vec<String> = vec!["\n".to_string(), "\n".to_string(), " \n".to_string(), "\t \n".to_string(), "\r\n".to_string(), format!("{}\n", BAD)];
+    let uniform = rng.chance(1, 2);
+    let first = rng.pick(&kinds).clone();
+    let mut run = String::with_capacity(n * 2);
+    for _ in 0..n {
+        if uniform {
+            run.push_str(&first);
+        } else {
+            let k = rng.pick(&kinds).clone();
+            run.push_str(&k);
+        }
+    }
+    let mut lines = vec![];
+    if rng.chance(1, 2) {
+        lines.push("uci\n".to_string());
+    }
+    lines.push(run);
+    lines.push("isready\n".to_string());
+    if rng.chance(1, 2) {
+        lines.push("quit\n".to_string());
+    }
+    let sc = Scenario { lines, cut: None, chunking: *rng.pick(&[1usize, 65536, 8192, 0]), read_error_before_line: None, eintr_every: 0, key_seed: rng.next_u64() };
+    res.probes.add("scripts_with_a_run_of_60000_or_more_lines_without_a_command", 1);
+    res.probes.max("max_consecutive_lines_without_a_command", n as u64);
+    let r = run_scenario(&sc, false);
+    res.evaluations += 1;
+    res.sim_time_ns += r.sim_ns;
+    res.log_hash = crate::rng::fnv1a(crate::rng::FNV_INIT, &r.log_hash.to_le_bytes());
+    res.distinct.push(hash_str(&format!("blankrun:{}:{}", seed, n)));
+    if let Some((class, detail)) = judge(&sc, &r) {
+        res.violations.push(violation(&sc, &r, class, detail, i, seed));
+        return res;
+    }
+    if let Some(bin) = real_bin {
+        let delivered = sc.delivered_bytes();
+        if let Ok(rr) = realbin::run_real(bin, &delivered, std::time::Duration::from_secs(60)) {
+            res.probes.add("real_binary_runs", 1);
+            let sim_t: Vec<String> = r.out_lines.iter().map(|l| realbin::strip_time_fields(l)).collect();
+            let real_t = realbin::normalise_transcript(&rr.stdout);
+            if !(rr.outcome == realbin::RealOutcome::Exited(0) && sim_t == real_t) {
+                res.violations.push(violation(&sc, &r, "real_binary_differs".into(), format!("real outcome {:?}, real transcript {:?} vs simulated {:?}", rr.outcome, real_t, sim_t), i, seed));
+            }
+        }
+    }
+    res
+}
+
 pub fn run(ctx: &Ctx) -> i32 {
     let scripts = ctx.n(96, 2400);
     let real_bin = realbin::real_binary_path();
@@ -722,6 +776,9 @@ pub fn run(ctx: &Ctx) -> i32 {
         let mut rng = Rng::new(seed);
         if i % 8 == 5 {
             return run_bulk(&mut rng, i, seed);
+        }
+        if i % 48 == 14 {
+            return run_blank_run(&mut rng, i, seed, &real_bin);
         }
         let base = gen_script(&mut rng);
         let total = base.all_bytes().len();
